@@ -457,7 +457,7 @@ def check(pid, tier):
     if not harness_failed:
         for comp, nq, nt in prop["components"]:
             try:
-                run_component(comp, nt if thorough else nq, seed, "main")
+                run_component(comp, nt if thorough else nq, seed + prop.get("seed_offset", 0), "main")
             except Exception as e:  # harness crash etc.
                 stats["crashes"].append(dict(component=comp, detail=repr(e)[:2000]))
         # extra runtime checks (timing harnesses etc.)
